@@ -255,7 +255,8 @@ def check_c14(t, seqs):
         for start in range(len(s)):
             best, _ = greedy_from(t, s, start)
             if best is not None and not any(a <= start < b for a, b in spans):
-                inside = any(start < a < start + best for a, b in spans)
+                # the recorded mechanism (D19): a younger attempt completes strictly before the older, still live one would
+                inside = any(start < a and b < start + best for a, b in spans)
                 fails.append(("coverage" + ("[younger-match-inside-older-attempt]" if inside else ""),
                               f"{show(t)} on {list(s)}: greedy match from {start} (length {best}) is not covered by {spans}", list(s)))
                 break
@@ -494,7 +495,7 @@ def check_header_shapes(maxlen):
                 for s0 in range(len(seq)):
                     e = ref_header_end(seq, s0, opt_kw, req_kw)
                     if e is not None and not any(a <= s0 < b for a, b in spans):
-                        inside = any(s0 < a < e for a, b in spans)
+                        inside = any(s0 < a and b < e for a, b in spans)
                         fails.append(("headers:coverage" + ("[younger-match-inside-older-attempt]" if inside else ""),
                                       f"{pname} on {list(seq)}: header from {s0} to {e} not covered by {spans}", list(seq)))
                         break
@@ -538,6 +539,10 @@ def main():
         big = list(trees(6))
         rnd.shuffle(big)
         all_trees = small + big[:6000]
+    if tier == "quick":
+        six = list(trees(6))
+        rnd.shuffle(six)
+        all_trees += six[:1200]     # a seeded sample of the next size (two-branch patterns with a repetition need six nodes)
     # larger random trees beyond the bound
     def rand_tree(n):
         if n <= 1:
